@@ -387,6 +387,27 @@ func init() {
 					}
 				}
 			}
+			// versioned sets (no legacy fields) over {-2, 3, MaxInt64}: keys of VersionedPlugins are plain ints, and two of them
+			// may be further apart than MaxInt64; several runs each, map iteration order differs between runs
+			var ext []verSide
+			for mask := 1; mask < 8; mask++ {
+				var vsn []int
+				for i, v := range []int{-2, 3, math.MaxInt64} { // (-1 is this harness's "no legacy version" mark)
+					if mask&(1<<i) != 0 {
+						vsn = append(vsn, v)
+					}
+				}
+				ext = append(ext, verSide{legacy: -1, vers: vsn, stale: -1})
+			}
+			for _, h := range ext {
+				for _, pl := range ext {
+					for _, env := range []string{"sent", "missing"} {
+						for i := 0; i < reps+2; i++ {
+							out = append(out, explore.Params{"host": h.String(), "plug": pl.String(), "gs": "1", "pa": "grpc", "env": env, "rep": strconv.Itoa(i)})
+						}
+					}
+				}
+			}
 			return out
 		},
 	})
